@@ -167,6 +167,43 @@ def arm_region(f, sb, variant):
     return ve[variant], f.only_via_edge((sb, ve[variant]))
 
 
+class Scope:
+    """a piece of code that handles one command/arm: the arm's region in the dispatcher, or the body of a helper that is
+    called only from that arm (`via` = the call block in the dispatcher; `outer(e)` rewrites an expression of the helper
+    in the dispatcher's terms by substituting the call's arguments for the parameters)"""
+
+    def __init__(self, fn, start, region, via=None, names=None, args=None):
+        self.fn, self.start, self.region, self.via = fn, start, region, via
+        self.names, self.args = names or {}, args or ()
+
+    def outer(self, e):
+        return mirq._subst(e, self.names, self.args) if self.names else e
+
+
+def arm_scopes(F, f, sb, variant):
+    """[Scope]: the arm of `variant` in the switch sb of f, plus the bodies of crate-local helpers (sync or async) called
+    in that arm and from nowhere else -- moving an arm's code into its own function keeps it in scope"""
+    tgt, region = arm_region(f, sb, variant)
+    region = set(region) | {tgt}
+    scopes = [Scope(f, tgt, region)]
+    for bb, callee in local_calls(F, f):
+        if bb not in region:
+            continue
+        g = F.fns.get(callee)
+        if g is None:
+            continue
+        cs = callers(F, callee)
+        if not cs or not all(F.owner_fn(c).path == F.owner_fn(f).path and c.path == f.path and cb in region for c, cb in cs):
+            continue
+        body = F.body(callee)
+        if body is None:
+            continue
+        names = {n: i for i, (n, l, t) in enumerate(params_of(g))}
+        scopes.append(Scope(body, 0, set(i for i, b in enumerate(body.blocks) if not b.get('cleanup')), via=bb, names=names,
+                            args=f.expr_call(bb)[2]))
+    return scopes
+
+
 def peer_task_run(F):
     """(run_body, event_loop_call_bb, kill_req_fn): the peer task wrapper that turns the result of
     the event loop into a KillReq"""
@@ -236,7 +273,8 @@ def reset_on_kill(F, rec):
         for bi, si, le, v in st:
             idxp = access_path(le[2][1]) if le[0] == 'call' and len(le[2]) > 1 else ''
             rec.site(rf, bi, 'reset store %s = Missing' % show(le)[:80])
-            rec.need('piece_index' in (idxp or ''), 'reset-wrong-index', rf, bi,
+            from rules import vocab as V
+            rec.need(V.peer_record(F) in re.split(r'[^A-Za-z0-9_]+', idxp or ''), 'reset-wrong-index', rf, bi,
                      'the reset does not address the dead peer\'s assigned piece (%s)' % idxp)
             guard_ok = False
             for sb in rf.switches():
@@ -339,16 +377,21 @@ class Audit:
     """enumerate panic-capable constructs in everything reachable from `roots`; each site must be
     auto-discharged by a recognised structural reason or be listed in `allow` (key -> invariant)."""
 
-    def __init__(self, F, roots, allow, skip_fns=()):
+    def __init__(self, F, roots, allow, skip_fns=(), canon=None):
         self.F = F
         self.roots = roots
         self.allow = allow
         self.skip = set(skip_fns)
+        # canon(f, text) -> text: rewrites the operand part of a site key into the vocabulary the allow table was written in
+        # (current names of fields / parameters resolved by type or role, see rules/vocab.py)
+        self.canon = canon
 
     def key(self, f, kind, ops):
         owner = f.path
         body = ','.join(show(o)[:90] for o in ops[:3])
         body = re.sub(r'\s+', ' ', body)
+        if self.canon is not None:
+            body = self.canon(f, body)
         return '%s/%s/%s' % (owner, kind.split(':')[0] if kind.startswith('overflow') is False else kind, body)
 
     def auto(self, f, kind, bb, ops):
@@ -445,35 +488,192 @@ class Audit:
     def _param_small(self, f, name):
         return True
 
+    # -- identity of functions named in the allow table -------------------------------------------------------------
+    def _fn_of_key(self, k):
+        """named function an allow key / site key belongs to (closure suffixes dropped)"""
+        head = k.split('/')[0]
+        return head.split('::{closure')[0]
+
+    def _setup(self):
+        F = self.F
+        if getattr(self, '_ready', False):
+            return
+        self._ready = True
+        self.known = {self._fn_of_key(k) for k in self.allow}
+        # (1) renamed functions: a current function the table does not know whose fingerprint equals that of a function
+        #     the table names and that no longer exists
+        self.alias = {}
+        fps = load_fingerprints()
+        gone = {p: fp for p, fp in fps.items() if p in self.known and p not in F.fns}
+        if gone:
+            by_fp = {}
+            for p, fp in gone.items():
+                by_fp.setdefault(fp, []).append(p)
+            for f in F.user_fns():
+                if f.kind in ('Fn', 'AssocFn') and f.path not in self.known and f.path not in fps:
+                    fp = fingerprint(F, f)
+                    if len(by_fp.get(fp, [])) == 1:
+                        self.alias[f.path] = by_fp[fp][0]
+        # (3) entries of functions that no longer exist under any name: their invariants moved with the code
+        aliased = set(self.alias.values())
+        self.orphans = [(k, r) for k, r in self.allow.items()
+                        if self._fn_of_key(k) not in F.fns and self._fn_of_key(k) not in aliased]
+
+    def _akey(self, key):
+        """site key with a renamed function's path replaced by the name the table knows"""
+        fn = self._fn_of_key(key)
+        if fn in self.alias:
+            return self.alias[fn] + key[len(fn):]
+        return key
+
+    def _lookup(self, f, kind, bb, ops):
+        """(verdict, text): auto-discharged / allowed / None"""
+        why = self.auto(f, kind, bb, ops)
+        if why:
+            return 'auto', why
+        key = self._akey(self.key(f, kind, ops))
+        keys = [key]
+        if kind == 'bounds' and ops and ops[0][0] in ('len',) or (kind == 'bounds' and ops and ops[0][0] == 'call' and ops[0][4].get('name') == 'len'):
+            # built-in slice indexing checks `idx < len(base)`: the same construct as Index::index(base, idx) on a Vec
+            base = ops[0][1] if ops[0][0] == 'len' else ops[0][2][0]
+            keys.append(self._akey(self.key(f, 'index', [base] + list(ops[1:]))))
+        for key in keys:
+            for ak, reason in self.allow.items():
+                if key.startswith(ak):
+                    return 'allow', reason
+        key = keys[0]
+        # orphan entries: same impl type / module, same construct
+        fn = self._fn_of_key(key)
+        parent = fn.rsplit('::', 1)[0]
+        rest = key[len(key.split('/')[0]):]
+        for ak, reason in self.orphans:
+            ofn = self._fn_of_key(ak)
+            if ofn.rsplit('::', 1)[0] == parent and rest.startswith(ak[len(ak.split('/')[0]):]):
+                return 'allow', reason + ' (entry of %s, which no longer exists: its code was merged elsewhere in %s)' % (ofn, parent)
+        return None, None
+
+    def _inherited(self, f):
+        """(2) a function the table does not know (a freshly extracted helper): its sites are judged in the context of
+        each caller, with the arguments substituted, under the caller's own entries.  True when every caller discharges all."""
+        F = self.F
+        owner = F.owner_fn(f)
+        if owner.path != f.path or self._akey(f.path).split('::{closure')[0] in self.known:
+            return False
+        if not mirq.inlinable(F, f):
+            return False
+        cs = callers(F, f.path)
+        if not cs:
+            return False
+        for c in {g.path: g for g, bb in cs}.values():
+            if self._fn_of_key(self._akey(c.path)) not in self.known:
+                return False
+            sp = mirq.inline_fn(F, c, lambda g: g.path == f.path, depth=1)
+            if sp is c:
+                return False
+            for kind, bb, ops in mirq.panic_sites(sp):
+                if sp.blocks[bb].get('inl') != f.path:
+                    continue
+                v, why = self._lookup(sp, kind, bb, ops)
+                if v is None:
+                    return False
+        return True
+
     def run(self, rec, keyprefix='panic-site/'):
         F = self.F
+        self._setup()
         fns = sorted(F.reachable_fns(self.roots))
         n = 0
-        used = set()
         for p in fns:
             f = F.fns[p]
             if f.derived or p in self.skip:
                 continue
+            inherited = None
             for kind, bb, ops in mirq.panic_sites(f):
                 n += 1
-                why = self.auto(f, kind, bb, ops)
-                key = self.key(f, kind, ops)
-                if why:
+                v, why = self._lookup(f, kind, bb, ops)
+                if v == 'auto':
                     rec.site(f, bb, '%s auto-discharged: %s' % (kind, why))
                     continue
-                hit = None
-                for ak, reason in self.allow.items():
-                    if key.startswith(ak):
-                        hit = (ak, reason)
-                        break
-                if hit:
-                    used.add(hit[0])
-                    rec.site(f, bb, '%s allowed: %s' % (kind, hit[1]))
+                if v == 'allow':
+                    rec.site(f, bb, '%s allowed: %s' % (kind, why))
                     continue
+                if inherited is None:
+                    inherited = self._inherited(f)
+                if inherited:
+                    rec.site(f, bb, '%s allowed in the context of every caller (helper unknown to the table, judged with arguments substituted)' % kind)
+                    continue
+                key = self.key(f, kind, ops)
                 rec.violation(keyprefix + key, f, bb,
                               'panic-capable construct (%s) with no recognised guard and no invariant on file: %s'
                               % (kind, ', '.join(show(o)[:100] for o in ops[:3])))
         return fns, n
+
+
+FP_FILE = __import__('os').path.join(__import__('os').path.dirname(__import__('os').path.abspath(__file__)), 'fn_fingerprints.json')
+
+
+def load_fingerprints():
+    import json
+    import os
+    if not os.path.exists(FP_FILE):
+        return {}
+    with open(FP_FILE) as fh:
+        return json.load(fh)
+
+
+def fingerprint(F, f):
+    """rename-stable identity of a named function: signature types, external callees, literals and branch count of its body
+    and of its closures / coroutine bodies.  Names of crate-local functions, fields and locals do not enter."""
+    import hashlib
+    parts = []
+    bodies = [f] + [F.fns[c] for c in sorted(_descendants(F, f.path))]
+    for g in bodies:
+        parts.append('T:' + '|'.join(g.locals[i]['ty'] for i in range(0, g.argc + 1)))
+        ext = []
+        lits = []
+        nsw = 0
+        for b in g.blocks:
+            if b.get('cleanup'):
+                continue
+            t = b['t']
+            if t['k'] == 'switch':
+                nsw += 1
+            if t['k'] == 'call' and not t.get('local', False):
+                ext.append(t.get('callee') or '?')
+            for st in b['s']:
+                if st['k'] == 'assign':
+                    _lits(st['rv'], lits)
+            if t['k'] == 'call':
+                for a in t.get('args', []):
+                    _lits(a, lits)
+        parts.append('E:' + ','.join(sorted(ext)))
+        parts.append('L:' + ','.join(sorted(lits)))
+        parts.append('S:%d' % nsw)
+    return hashlib.sha1('\n'.join(parts).encode()).hexdigest()[:16]
+
+
+def _descendants(F, path):
+    out = []
+    for c in F.children(path):
+        out.append(c)
+        out.extend(_descendants(F, c))
+    return out
+
+
+def _lits(o, acc):
+    if isinstance(o, dict):
+        c = o.get('c')
+        if isinstance(c, dict):
+            if 'str' in c:
+                acc.append('s:' + c['str'])
+            elif 'val' in c and 'def' not in c:
+                acc.append('v:%s' % c['val'])
+        for k, v in o.items():
+            if k not in ('sp', 'fsp'):
+                _lits(v, acc)
+    elif isinstance(o, list):
+        for v in o:
+            _lits(v, acc)
 
 
 def param_pos(f, e):
@@ -643,7 +843,28 @@ def check_list_records(F, rec, L, adt_re, want, keyprefix):
         rec.site(f, bi, '%s form: %s; element dict: %s' % (form, desc, sorted(dicts)))
         rec.need(dicts == {want_dict}, keyprefix + '-dict', f, bi,
                  'record fields are read from %s, expected the dictionary of the list element itself' % sorted(dicts))
-        bad = [n for n in names if n in ('rev', 'skip', 'take', 'step_by', 'skip_while', 'take_while', 'filter', 'enumerate', 'last', 'next')]
+        bad = [n for n in names if n in ('rev', 'skip', 'take', 'step_by', 'skip_while', 'take_while', 'map_while', 'scan', 'filter', 'enumerate', 'last', 'next')]
         rec.need(not bad and mirq.param_root(L, src), keyprefix + '-order', f, bi,
-                 'the list is not walked in full, in order, from the parameter: %s over %s' % (names, show(src)[:60]))
+                 'the list is not walked in full, in order, from the parameter (a truncating / reordering adaptor drops well-formed entries): %s over %s' % (names, show(src)[:60]))
     return recs
+
+
+def params_of(f, ty_re=None):
+    """[(name, mir_local, type)] of the parameters of f (optionally those whose type matches ty_re)"""
+    out = []
+    for v in f.raw['vars']:
+        if 'arg' in v:
+            ty = f.locals[v['arg']]['ty']
+            if ty_re is None or re.search(ty_re, ty):
+                out.append((v['n'], v['arg'], ty))
+    return out
+
+
+def is_param(f, e, which=None):
+    """expression e is (rooted at) a parameter of f; `which` restricts to a set of parameter names"""
+    p = access_path(e)
+    if not p:
+        return False
+    root = p.split('.')[0].split('<')[0].split('[')[0]
+    names = {n for n, l, t in params_of(f)}
+    return root in names and (which is None or root in which)
